@@ -16,13 +16,15 @@ def writerFacts : WriterFacts := {
   ruleApplies := false
   boundArg := false
   extraRules := false
+  jsonNumKinds := false
 }
 
 /-- analyzer.go: every name of `F, G string` gets its own key; a tag written as an interpreted string literal is read -/
 def analyzerMultiName : Bool := false
 def analyzerTagLiteral : Bool := false
+def analyzerSkipTestFiles : Bool := false
 
 /-- classes `<c>` of the lines `open: property=C13 key=wcompile:notypecheck:<c>:*` of known-findings.txt -/
-def openCompileClasses : List String := ["enum+method", "lazy-self-reference", "time-not-imported", "slice-cannot-infer-T", "record-arguments", "no-method:ZodStruct.Min", "no-method:ZodStruct.Max", "no-method:ZodTime.Min", "no-method:ZodTime.Max", "no-method:ZodBool.Min", "no-method:ZodString.Gt", "constant-not-representable:float-as-integer", "constant-not-representable:overflows-int64", "unused-import", "default-not-json-of-kind"]
+def openCompileClasses : List String := ["enum+method", "lazy-self-reference", "time-not-imported", "slice-cannot-infer-T", "record-arguments", "no-method:ZodStruct.Min", "no-method:ZodStruct.Max", "no-method:ZodTime.Min", "no-method:ZodTime.Max", "no-method:ZodBool.Min", "no-method:ZodString.Gt", "constant-not-representable:float-as-integer", "constant-not-representable:overflows-int64", "unused-import"]
 
 end Gozod.Gen
